@@ -448,12 +448,20 @@ func c16r2(c *core.Ctx) {
 		}
 		return nil, "", ""
 	}
-	core.InspectNoLits(f.Body, func(n ast.Node) bool {
-		body, key, bound := outerOf(n)
-		if body == nil {
-			return true
-		}
+	// scan looks, in the body of the loop over event types (or in a helper that the body calls with the loop key), for
+	// the inner loop over observers[key] that stores the unregistered marker
+	var scan func(fn *core.Func, body ast.Node, key, bound string, depth int)
+	scan = func(fn *core.Func, body ast.Node, key, bound string, depth int) {
 		ast.Inspect(body, func(x ast.Node) bool {
+			if call, isCall := x.(*ast.CallExpr); isCall && depth < 2 {
+				if k, cal, _ := m.Callee(call); k == core.CallStatic && cal != nil && cal.Body != nil && cal.Recv == fn.Recv && cal != fn {
+					for i, a := range call.Args {
+						if m.ExprString(a) == key && i < cal.Sig.Params().Len() {
+							scan(cal, cal.Body, cal.Sig.Params().At(i).Name(), bound, depth+1)
+						}
+					}
+				}
+			}
 			inner, isR2 := x.(*ast.RangeStmt)
 			if !isR2 || inner.Value == nil {
 				return true
@@ -461,7 +469,7 @@ func c16r2(c *core.Ctx) {
 			src := inner.X
 			if id, isID := ast.Unparen(src).(*ast.Ident); isID {
 				if v, okv := m.Info.ObjectOf(id).(*types.Var); okv {
-					for _, d := range localDefsOf(m, f, v) {
+					for _, d := range localDefsOf(m, fn, v) {
 						src = d
 					}
 				}
@@ -488,6 +496,13 @@ func c16r2(c *core.Ctx) {
 			})
 			return true
 		})
+	}
+	core.InspectNoLits(f.Body, func(n ast.Node) bool {
+		body, key, bound := outerOf(n)
+		if body == nil {
+			return true
+		}
+		scan(f, body, key, bound, 0)
 		return true
 	})
 	if ok {
